@@ -34,7 +34,7 @@ CHECKS=${*:-$ID}
 for c in $CHECKS; do
   out=$("$V/selftest.sh" "$SRC/patch.diff" "$c" quick 2>&1 | tail -4)
   echo "$out" | tail -1 | tee -a "$R"
-  if echo "$out" | grep -q "^MISSED"; then
+  if echo "$out" | grep -q "^MISSED" && [ -z "${SEED_NO_THOROUGH:-}" ]; then
     out=$("$V/selftest.sh" "$SRC/patch.diff" "$c" thorough 2>&1 | tail -4)
     echo "$out" | tail -1 | tee -a "$R"
   fi
